@@ -215,15 +215,31 @@ def rule_trivial_shortcut(repo: Repo) -> List[Ob]:
             else:
                 verdict = False
                 detail = f"the shortcut is entered when *some* base is rational (`{src(e)[:60]}`): irrational bases are truncated to integers by the coprimality test"
+    obs_len = []
+    # an early `return True` on the number of bases is right for the empty list only: a single base can be a root of unity ((-1)**2 = 1)
+    for n in walk_no_nested(f.node):
+        if isinstance(n, ast.If) and any(isinstance(x, ast.Return) and isinstance(x.value, ast.Constant) and x.value.value is True for x in n.body) \
+                and isinstance(n.test, ast.Compare) and len(n.test.ops) == 1 and isinstance(n.test.left, ast.Call) and call_name(n.test.left) == "len":
+            op, rhs = n.test.ops[0], n.test.comparators[0]
+            if isinstance(rhs, ast.Constant) and isinstance(rhs.value, int):
+                max_len = {ast.Eq: rhs.value, ast.LtE: rhs.value, ast.Lt: rhs.value - 1}.get(type(op))
+                if max_len is not None:
+                    obs_len.append(Ob("F-trivial-lattice", "invariants/exponent_lattice.py::ExponentLattice.is_trivially_empty::empty-list-only", f.relpath, n.lineno, f.qualname, max_len <= 0,
+                                      "only the empty list of bases is declared trivially relation-free without looking at the bases" if max_len <= 0 else
+                                      f"`{src(n.test)}`: a list of {max_len} base(s) is declared relation-free unseen, but a single root of unity (-1) has the relation (-1)**2 = 1"))
     if verdict is None:
-        return [inconclusive("F-trivial-lattice", key, f.relpath, cop[0].lineno, f.qualname, detail)]
-    return [Ob("F-trivial-lattice", key, f.relpath, cop[0].lineno, f.qualname, verdict,
+        return obs_len + [inconclusive("F-trivial-lattice", key, f.relpath, cop[0].lineno, f.qualname, detail)]
+    return obs_len + [Ob("F-trivial-lattice", key, f.relpath, cop[0].lineno, f.qualname, verdict,
                "the `no relations` shortcut (coprime numerators and denominators) is taken only if every base is rational" if verdict else detail)]
 
 
 def mut_trivial_shortcut(repo: Repo) -> List[Mutant]:
     ov = text_mutant(repo, "invariants/exponent_lattice.py", "all_rational = all([b.is_Rational for b in self.bases])", "all_rational = any([b.is_Rational for b in self.bases])")
-    return [Mutant("shortcut-if-any-base-rational", ov, "fire", "is_trivially_empty::all-rational", control=True)] if ov else []
+    out = [Mutant("shortcut-if-any-base-rational", ov, "fire", "is_trivially_empty::all-rational", control=True)] if ov else []
+    ov = text_mutant(repo, "invariants/exponent_lattice.py", "if len(self.bases) == 0:", "if len(self.bases) <= 1:")
+    if ov:
+        out.append(Mutant("single-base-declared-trivial", ov, "fire", "empty-list-only"))
+    return out
 
 
 # ------------------------------------------------------------------ mechanisms behind an emptiness test must be enterable
@@ -364,9 +380,98 @@ def mut_norm_dimension(repo: Repo) -> List[Mutant]:
     return out
 
 
+# ------------------------------------------------------------------ Mahler measure starts from the leading coefficient
+def rule_mahler(repo: Repo) -> List[Ob]:
+    """faccin_height is ln(M)/deg with the Mahler measure M = |lc| * prod max(1, |root|)**mult of the minimal polynomial.
+    Starting the product from 1 is right for algebraic integers only (monic minimal polynomial); exponent bases are
+    arbitrary algebraic numbers (2**-100 has leading coefficient 2**100)."""
+    f = repo.function("utils/algebraic_numbers.py", "faccin_height")
+    key = "utils/algebraic_numbers.py::faccin_height::leading-coefficient"
+    defs = Defs(f.node, None)
+    # the accumulator that is multiplied by max(Abs(root), 1) ** mult
+    accs = [n for n in walk_no_nested(f.node) if isinstance(n, ast.AugAssign) and isinstance(n.op, ast.Mult) and isinstance(n.target, ast.Name)
+            and any(isinstance(x, ast.Call) and call_name(x) == "max" for x in ast.walk(n.value))]
+    start = None
+    if accs:
+        inits = [v for v, st in zip(defs.defs.get(accs[0].target.id, []), defs.def_sites.get(accs[0].target.id, [])) if isinstance(st, ast.Assign) and isinstance(v, ast.expr)]
+        start = inits[0] if inits else None
+    else:
+        # reduce(lambda acc, rm: acc * max(...), roots, START)  /  prod(...) * START
+        for c in walk_no_nested(f.node):
+            if isinstance(c, ast.Call) and call_name(c) == "reduce" and len(c.args) == 3:
+                start = c.args[2]
+        for hf, _, _ in __import__("polarlint.shape", fromlist=["helper_calls"]).helper_calls(repo, f, depth=1):
+            for c in walk_no_nested(hf.node):
+                if isinstance(c, ast.Call) and call_name(c) == "reduce" and len(c.args) == 3:
+                    start = c.args[2]
+                    defs = Defs(hf.node, None)
+    if start is None:
+        return [inconclusive("F-mahler", key, f.relpath, f.node.lineno, f.qualname, "start value of the product over the roots not recognised")]
+    start = resolve_alias(start, defs)
+    has_lc = any(isinstance(x, ast.Call) and call_name(x) in ("LC", "leading_coeff", "lc") for x in ast.walk(start)) or \
+        any(isinstance(x, ast.Name) and any(isinstance(y, ast.Call) and call_name(y) in ("LC", "leading_coeff") for v in defs.defs.get(x.id, []) if isinstance(v, ast.expr) for y in ast.walk(v)) for x in ast.walk(start))
+    if has_lc:
+        return [Ob("F-mahler", key, f.relpath, start.lineno, f.qualname, True, "the Mahler measure starts from the leading coefficient of the minimal polynomial")]
+    if isinstance(start, ast.Constant):
+        return [Ob("F-mahler", key, f.relpath, start.lineno, f.qualname, False,
+                   f"the product over the roots starts from the constant {start.value!r}: the leading coefficient of the minimal polynomial is dropped, the height (and with it the Faccin bound) of a non-integer base is too small and true generators are cut away")]
+    return [inconclusive("F-mahler", key, f.relpath, start.lineno, f.qualname, f"start value `{src(start)[:40]}` not recognised")]
+
+
+def mut_mahler(repo: Repo) -> List[Mutant]:
+    ov = text_mutant(repo, "utils/algebraic_numbers.py", "M = poly.LC()", "M = 1")
+    return [Mutant("leading-coefficient-dropped", ov, "fire", "faccin_height::leading-coefficient", control=True)] if ov else []
+
+
+# ------------------------------------------------------------------ the parity coefficient belongs to the row of the factor -1
+def rule_parity_row(repo: Repo) -> List[Ob]:
+    """compute_basis_rational adds `2*t` to the equation of the factor -1 (its multiplicities must sum to an EVEN number) by
+    writing 2 into the last row / last column.  That is only the -1 row if the other rows were built without -1 and the -1
+    row was inserted at the end."""
+    f = repo.function("invariants/exponent_lattice.py", "ExponentLattice.compute_basis_rational")
+    key = "invariants/exponent_lattice.py::ExponentLattice.compute_basis_rational::parity-row"
+    stores = [n for n in walk_no_nested(f.node) if isinstance(n, ast.Assign) and isinstance(n.targets[0], ast.Subscript) and isinstance(n.targets[0].slice, ast.Tuple)
+              and src(n.targets[0].slice).replace(" ", "") in ("-1,-1", "(-1,-1)") and src(n.value) == "2"]
+    if not stores:
+        return [inconclusive("F-parity-row", key, f.relpath, f.node.lineno, f.qualname, "placement of the parity coefficient not recognised")]
+    # rows built from the table: is the key -1 excluded?
+    excl = False
+    incl_all = None
+    for n in walk_no_nested(f.node):
+        if isinstance(n, (ast.ListComp, ast.GeneratorExp)) and any("items" in src(g.iter) or "keys" in src(g.iter) for g in n.generators):
+            conds = " ".join(src(c) for g in n.generators for c in g.ifs)
+            if "!= -1" in conds or "!=-1" in conds.replace(" ", "") or "> 0" in conds or "is not" in conds:
+                excl = True
+            elif not conds:
+                incl_all = n
+        if isinstance(n, ast.Call) and call_name(n) in ("list", "Matrix") and n.args and isinstance(n.args[0], ast.Call) and call_name(n.args[0]) == "values":
+            incl_all = n
+    appended_last = any(isinstance(c, ast.Call) and call_name(c) == "row_insert" and c.args and "shape[0]" in src(c.args[0]) and "-1" in src(c) for c in walk_no_nested(f.node))
+    if excl and appended_last:
+        return [Ob("F-parity-row", key, f.relpath, stores[0].lineno, f.qualname, True, "the rows of the primes are built without the factor -1 and its row is inserted last: the parity coefficient meets the -1 row")]
+    if incl_all is not None and not excl:
+        return [Ob("F-parity-row", key, f.relpath, stores[0].lineno, f.qualname, False,
+                   f"the equation matrix is built from all factors in table order (`{src(incl_all)[:50]}`) while the parity coefficient is written into the LAST row: unless -1 happens to be the last factor met, the 2 lands in a prime's equation")]
+    return [inconclusive("F-parity-row", key, f.relpath, stores[0].lineno, f.qualname, "order of the equation rows not recognised")]
+
+
+def mut_parity_row(repo: Repo) -> List[Mutant]:
+    def tr(tree):
+        fn = find_def(tree, "ExponentLattice.compute_basis_rational")
+        for n in ast.walk(fn):
+            if isinstance(n, ast.Assign) and isinstance(n.targets[0], ast.Name) and n.targets[0].id == "entries":
+                n.value = ast.parse("list(factors_to_multiplicities.values())").body[0].value
+                return True
+        return False
+    ov = mutate_module(repo, "invariants/exponent_lattice.py", tr)
+    return [Mutant("rows-in-table-order", ov, "fire", "parity-row", control=True)] if ov else []
+
+
 RULES = {
     "ALIAS": Rule("G4-aliasing", rule_aliasing, 1, "rows handed out per key (setdefault / fromkeys / list multiplication) are distinct objects when they are written through; one multiplicity row per factor", mut_aliasing, soft=True),
     "TRIVIAL": Rule("F-trivial-lattice", rule_trivial_shortcut, 1, "the `trivially empty lattice` shortcut is guarded by: all bases rational", mut_trivial_shortcut, soft=True),
     "DEADGUARD": Rule("M-dead-guard", rule_dead_guard, 1, "a container emptied at the start of a method and tested for emptiness later can be filled in between (the saturation of the lattice ideal is reachable)", mut_dead_guard, soft=True),
+    "MAHLER": Rule("F-mahler", rule_mahler, 1, "faccin_height multiplies the max(1,|root|) factors onto the leading coefficient of the minimal polynomial", mut_mahler, soft=True),
+    "PARITYROW": Rule("F-parity-row", rule_parity_row, 1, "the parity coefficient 2 is written into the row of the factor -1 (that row is built last)", mut_parity_row, soft=True),
     "NORMDIM": Rule("F-norm-bound", rule_norm_dimension, 1, "the Gram-Schmidt norm is compared with the Faccin bound in the same dimension", mut_norm_dimension, soft=True),
 }
